@@ -105,6 +105,18 @@ func run(p *rules.Property, repo, tier, verif string, seed int) int {
 				}
 			}()
 			p.Run(c)
+			if tier == "thorough" {
+				// the rules of the properties whose checks have caught breakages of this
+				// one (their behaviours overlap: framing and truncation, the codecs, the end
+				// point and its users): obligations with the same rule and construct are
+				// merged, the others are added
+				for _, rid := range rules.Related[p.ID] {
+					if rp := rules.Registry[rid]; rp != nil {
+						rp.Run(c)
+					}
+				}
+				c.Dedupe()
+			}
 			c.EvalWitnesses()
 		}()
 		return c
